@@ -15,13 +15,14 @@ import TfelVerif.C41.Spec
 import Mathlib.Tactic.FieldSimp
 import Mathlib.Tactic.Ring
 import Mathlib.Tactic.NormNum
+import Mathlib.Algebra.CharZero.Defs
 
 namespace TfelVerif.C41
 open TfelVerif TfelVerif.C41.GenT
 set_option linter.unusedVariables false
 set_option linter.unusedSectionVars false
 
-variable {K : Type} [Field K] (c c3 : K) (fn : Fns K)
+variable {K : Type} [Field K] [CharZero K] (c c3 : K) (fn : Fns K)
 
 /-- `0.25`, `1.e-4`, `293.15`, `150e9`, `2.e7` as doubles -/
 def lit025 : K := (1 : K) / 4
@@ -38,7 +39,7 @@ def youngT (T : K) : K := lit150e9 - lit2e7 * (T - lit29315)
 local macro "t_close" : tactic =>
   `(tactic| (simp only [gen_simp, hooke, lam, mu, nuT, youngT, lit025, lit1em4, lit29315, lit150e9, lit2e7, List.map,
       List.cons.injEq, and_true]
-             ; all_goals (repeat' apply And.intro) ; all_goals (first | rfl | ring1 | (norm_num <;> ring1))))
+             ; all_goals (repeat' apply And.intro) ; all_goals (first | rfl | ring1 | (norm_num <;> ring1) | (field_simp; ring1))))
 
 theorem NT_nu_step_stress (i : NT_nu_step_In K) (k : NT_nu_step_Cut K) :
     NT_nu_step_sig_list c c3 fn i k = hooke (lam lit150e9 (nuT (i.T + (i.T1 - i.T)))) (mu lit150e9 (nuT (i.T + (i.T1 - i.T))))
